@@ -21,9 +21,9 @@ CHAINS = {
     'F:None': ([[F, {'conserve': None}]], None),
     'SHF:N,Sz': ([[SHF, {'cons_N': 'N', 'cons_Sz': 'Sz'}]], None),
     'SHF:parity,None': ([[SHF, {'cons_N': 'parity', 'cons_Sz': None}]], None),
-    'SHF:None,None': ([[SHF, {'cons_N': None, 'cons_Sz': None}]], None),
+    'SHF:None,None': ([[SHF, {'cons_N': None, 'cons_Sz': None}]], 'same'),
     'Hole:N,Sz': ([['SpinHalfHoleSite', {'cons_N': 'N', 'cons_Sz': 'Sz'}]], None),
-    'mixed:None': ([[F, {'conserve': None}], ['BosonSite', {'Nmax': 1, 'conserve': None}], [SHF, {'cons_N': None, 'cons_Sz': None}]], None),
+    'mixed:None': ([[F, {'conserve': None}], ['BosonSite', {'Nmax': 1, 'conserve': None}], [SHF, {'cons_N': None, 'cons_Sz': None}]], 'same'),
     'mixed:common': ([[F, {'conserve': 'N'}], ['BosonSite', {'Nmax': 1, 'conserve': 'N'}], [SHF, {'cons_N': 'N', 'cons_Sz': 'Sz'}]], 'same'),
     'species:N,Sz': ([F, 'N', 'Sz'], 'species'),
 }
@@ -44,6 +44,13 @@ def make_cell(name):
 def alphabet(site, fermionic_only=False):
     """Operator names used in the enumerated terms: every fermionic one plus one bosonic, non-diagonal one."""
     return fermionic_names(site) + ([] if fermionic_only else BOSONIC[type(site).__name__])
+
+
+def term_charge(ops_sites):
+    """(fermion parity, total charges...) of a product of onsite operators given as (name, site) pairs."""
+    chinfo = ops_sites[0][1].leg.chinfo
+    tot = chinfo.make_valid(sum(site.get_op(op).qtotal for op, site in ops_sites))
+    return (sum(site.op_needs_JW(op) for op, site in ops_sites) % 2,) + tuple(int(x) for x in tot)
 
 
 def mpo_dense(H):
@@ -116,6 +123,21 @@ def check_reference(case):
             out.append(('reference:CAR:{c,c}', '%s: {%s_%d, %s_%d} != 0' % (case, a, i, b, j)))
         if not close(A @ Bd + Bd @ A, one if (a, i) == (b, j) else 0 * one):
             out.append(('reference:CAR:{c,cd}', '%s: {%s_%d, %s_%d^dagger} != delta' % (case, a, i, b, j)))
+    # a single fermionic operator applied to the MPS: the JW string comes from the charges of the bond
+    for i, s in enumerate(cx.sites):
+        for n in fermionic_names(s):
+            target = cx.G(n, i) @ cx.vec
+            if np.linalg.norm(target) > 1e-6:
+                p2 = cx.psi.copy()
+                try:
+                    with warnings.catch_warnings():
+                        warnings.simplefilter('ignore')
+                        p2.apply_local_op(i, n)
+                    if not close(cx.psi_vec(p2), target):
+                        out.append(('reference:apply_local_op', '%s: %s_%d|psi> differs from the dense result' % (case, n, i)))
+                except ValueError as e:
+                    if cx.has_c2JW:
+                        out.append(('reference:apply_local_op:exception', '%s: %s_%d: %s' % (case, n, i, e)))
     return out
 
 
@@ -241,11 +263,11 @@ def check_corr(case):
                 if i + 1 < L:
                     r = psi.term_correlation_function_right([(ops1[0], 0)], [(ops2[0], 0)], i_L=i, j_R=list(range(i + 1, L)))
                     if not close(r, ref[x, x + 1:]):
-                        bad('term_right', 'i=%d: %s vs dense %s' % (i, r, ref[x, x + 1:]))
+                        bad('term_correlation_function_right', 'i=%d: %s vs dense %s' % (i, r, ref[x, x + 1:]))
                 for y in range(x + 1, len(sel)):
                     r = psi.term_correlation_function_left([(ops1[0], 0)], [(ops2[0], 0)], i_L=[i], j_R=sel[y])
                     if not close(r, ref[x, y:y + 1]):
-                        bad('term_left', 'i=%d j=%d: %s vs dense %s' % (i, sel[y], r, ref[x, y]))
+                        bad('term_correlation_function_left', 'i=%d j=%d: %s vs dense %s' % (i, sel[y], r, ref[x, y]))
     return out
 
 
@@ -263,7 +285,7 @@ def check_corr2(case):
             l = cx.psi.term_correlation_function_left(tL, tR, i_L=[i], j_R=j)
             for name, val in (('right', r), ('left', l)):
                 if not close(val, [ref]):
-                    out.append(('corr2:term_' + name, '%s: i=%d j=%d: %s vs dense %s' % (case, i, j, val, ref)))
+                    out.append(('corr:term_correlation_function_%s:two-site-terms' % name, '%s: i=%d j=%d: %s vs dense %s' % (case, i, j, val, ref)))
     return out
 
 
@@ -323,7 +345,10 @@ def check_gterm(case):
     term = [(op, i) for op, i in case['term']]
     out = []
     bad = lambda key, msg: out.append(('grouped-chain:' + key, '%s: %s' % (case, msg)))  # noqa: E731
-    gpsi, full = grouped(case['chain'], case['L'], case.get('seed', 0), n)
+    try:
+        gpsi, full = grouped(case['chain'], case['L'], case.get('seed', 0), n)
+    except Exception as e:  # noqa: BLE001
+        return [('grouped-chain:MPS.group_sites:exception:' + type(e).__name__, '%s: MPS.group_sites(%d) raises %s' % (case, n, e))]
     gsites = gpsi.sites
     gterm = [(op + str(i % n), i // n) for op, i in term]
     ref = cx.product(term)
